@@ -110,6 +110,14 @@ def exec_case(case):
     for i in range(T):
         if np.any(np.isneginf(np.asarray(st_.get_history("logl", index=i), dtype=float))):
             raise Violation(f"history batch {i} contains log-likelihood -inf", sig={"kind": "neginf-stored"})
+        if case["mode"] == "blobs":
+            # nothing of an excluded draw may survive: the stored blob must be the blob of the stored (supported) point
+            xb, bb = np.asarray(st_.get_history("x", index=i)), np.asarray(st_.get_history("blobs", index=i), dtype=float).reshape(-1)
+            for k in range(len(xb)):
+                if bb[k] != t.blob_row(xb[k]):
+                    raise Violation(f"history batch {i}, particle {k}: the stored blob {bb[k]!r} is not the blob of the stored point "
+                                    f"(blob(x)={t.blob_row(xb[k])!r}): auxiliary data of a replaced zero-likelihood draw was kept",
+                                    sig={"kind": "excluded-draw-blob-stored"})
     for tr in (False, True):
         o = lib_call(s.posterior, trim_importance_weights=tr, what="posterior")
         if np.any(np.isneginf(np.asarray(o[2], dtype=float))):
